@@ -1080,8 +1080,115 @@ class Interproc:
                     st.add_le(a2, b2, c)
         # 3. return value
         if len(sums) == 1 and sums[0][1] is not None and sums[0][1].ret is not None:
-            return self.apply_ret(an, ctx, sums[0][1].ret)
+            r = self.apply_ret(an, ctx, sums[0][1].ret)
+            # a small, loop-free numeric helper is evaluated once more in the context of this call (its summary is the join over
+            # all contexts: `if c > 0 { c - 1 } else { size - 1 }` stays below `size` only because this caller's c does)
+            if r == "stored" and ctx.dest_tix is not None and an.is_num(ctx.dest_tix):
+                self.refine_by_context(an, ctx, sums[0][0])
+            return r
         return None
+
+    def refine_by_context(self, an, ctx, cid):
+        b2 = self.f.bodies.get(self.base(cid))
+        if b2 is None or b2.nblocks > 24 or b2.back_edges or b2.argc == 0 or b2.argc != len(ctx.args) or b2.id == an.b.id:
+            return
+        T = self.f.types
+        nums = []
+        for i in range(1, b2.argc + 1):
+            ty = T[b2.locals[i]["t"]]
+            if ty["k"] in ("int", "bool", "char"):
+                nums.append(i)
+            elif ty["k"] != "ref":
+                return
+        if not nums or b2.defs.get(0) is None:
+            return
+        st = ctx.st
+        # entry state: intervals of the numeric arguments and the differences between them, as this call site knows them
+        vals = {}
+        for i in nums:
+            v = ctx.args[i - 1][0]
+            if v[0] in ("n", "iv"):
+                vals[i] = v
+        if not vals:
+            return
+        sig = []
+        st0 = State()
+        for i, v in sorted(vals.items()):
+            iv_ = st.val_iv(v)
+            st0.set_iv(("v", i, ()), iv_[0], iv_[1])
+            sig.append((i, iv_))
+        for i, v in sorted(vals.items()):
+            for j, w in sorted(vals.items()):
+                if i != j and v[0] == "n" and w[0] == "n" and v[1] is not None and w[1] is not None:
+                    d = st.bound_diff(v[1], w[1])
+                    if d is not None and abs(d) <= (1 << 20):
+                        st0.add_le(("n", ("v", i, ()), 0), ("n", ("v", j, ()), 0), d + v[2] - w[2])
+                        sig.append((i, j, d + v[2] - w[2]))
+        key = (b2.id, tuple(sig))
+        cache = self.__dict__.setdefault("_ctx_cache", {})
+        out = cache.get(key)
+        if out is None:
+            if len(cache) > 4000:
+                return
+            an2 = Analyzer(self.f, interproc=self)
+            an2.invariants = self.invariants
+            an2.nowrap = self.nowrap
+            an2.cargs = self.cargs_of(cid)
+            an2.infeasible = getattr(self, "infeasible", {}).get(b2.id, ())
+            saved = absdom.MAX_PARAM
+            exits = []
+            try:
+                an2.analyze(b2, entry=st0, collect=False)
+                for xb in b2.exits:
+                    rst = an2.state_before_term(xb)
+                    if rst is not None and rst != [] and not rst.bottom:
+                        exits.append(rst)
+            except RuntimeError:
+                exits = []
+            finally:
+                absdom.MAX_PARAM = saved
+            if not exits:
+                cache[key] = ()
+                return
+            iv_, rels = None, None
+            tr = an2.ty_range(b2.locals[0]["t"]) or FULL
+            for rst in exits:
+                rv = rst.sym.get((0, ()))
+                val = rv if (rv is not None and rv[0] in ("n", "iv")) else ("n", ("v", 0, ()), 0)
+                i1 = absdom.iv_meet(rst.val_iv(val), tr)
+                iv_ = i1 if iv_ is None else absdom.iv_join(iv_, i1)
+                r1 = {}
+                if val[0] == "n":
+                    for i in vals:
+                        if b2.defs.get(i):
+                            continue        # the parameter is reassigned in the callee: it no longer names the argument
+                        pt = ("v", i, ())
+                        d1 = rst.bound_diff(val[1], pt)
+                        d2 = rst.bound_diff(pt, val[1])
+                        if d1 is not None:
+                            r1[("le", i)] = d1 + val[2]
+                        if d2 is not None:
+                            r1[("ge", i)] = d2 - val[2]
+                rels = r1 if rels is None else {k: max(c, r1[k]) for k, c in rels.items() if k in r1}
+            rels = tuple((k[0], k[1], c) for k, c in sorted(rels.items()))
+            out = cache[key] = (iv_, rels)
+        if not out:
+            return
+        iv_, rels = out
+        d = ctx.dest_place()
+        if d is None:
+            return
+        t = ("v", d[0], d[1])
+        st.set_iv(t, iv_[0], iv_[1])
+        me = ("n", t, 0)
+        for kind, i, c in rels:
+            w = vals.get(i)
+            if w is None or w[0] != "n":
+                continue
+            if kind == "le":
+                st.add_le(me, w, c)
+            else:
+                st.add_le(w, me, c)
 
     def apply_exit(self, an, ctx, ret):
         st = ctx.st
